@@ -258,3 +258,27 @@ Lemma overflowed_guard v : overflowed v = overflow_guard (Z.of_nat (length (v_op
 Proof. reflexivity. Qed.
 Lemma overflow_guard_iff n : overflow_guard n = true <-> n > 1000000.
 Proof. unfold overflow_guard, CLOUD_POINT_MAX. lia. Qed.
+
+(* ---- the documented discard, stated on its own: it happens exactly when an MSOP-dispatched packet arrives while the open frame
+   holds more than 1,000,000 points; then the open frame is dropped as a whole, ERRCODE_CLOUDOVERFLOW is offered to the throttle
+   (reported if more than a second has passed since its last report), and what is delivered or open afterwards is what this packet
+   contributed; in every other case nothing of the open frame is lost *)
+Lemma process_msop_overflow_report bl tbl v th now host b : overflowed v = true ->
+  now - (match th_get th ERR_CLOUDOVERFLOW with Some p => p | None => 0 end) > 1 ->
+  In (OErr ERR_CLOUDOVERFLOW) (snd (fst (fst (process_msop bl tbl v th now host b)))).
+Proof.
+  unfold overflowed. intros Hov Hnow. unfold process_msop. cbv zeta. rewrite Hov.
+  unfold limit_call at 1. cbv zeta. destruct (now - _ >? 1) eqn:E; [|lia].
+  set (v0 := set_open v _ _ _ _ _ _ _).
+  destruct (c_wait_for_difop (v_cfg v) && negb (s_angles_ready (v_dec v0))).
+  { destruct (delay_limit_call _ now ERR_NODIFOPRECV) as [t e]. cbn [fst snd]. apply in_or_app. left. left. reflexivity. }
+  destruct (negb (blen b =? d_msop_len (v_desc v))).
+  { destruct (limit_call _ now ERR_WRONGMSOPLEN) as [t e]. cbn [fst snd]. apply in_or_app. left. left. reflexivity. }
+  destruct (negb (match_at b 0 (d_msop_id (v_desc v)))).
+  { destruct (limit_call _ now ERR_WRONGMSOPID) as [t e]. cbn [fst snd]. apply in_or_app. left. left. reflexivity. }
+  destruct (b_crc bl && negb (crc_ok tbl b)).
+  { destruct (limit_call _ now ERR_WRONGCRC32) as [t e]. cbn [fst snd]. apply in_or_app. left. left. reflexivity. }
+  destruct (d_family (v_desc v)).
+  - destruct (feed_blocks _ _ now _) as [[v1 th1] o1]. cbn [fst snd]. apply in_or_app. left. left. reflexivity.
+  - destruct (mems_subs now host _ 0 v0 _ b false) as [[[[v1 th1] o1] ret] b']. cbn [fst snd]. apply in_or_app. left. left. reflexivity.
+Qed.
